@@ -6,4 +6,9 @@ TEXTS = {
   "note": "Assumes the four ASE levels are identified by the library's named constants; randomness of a map-order dependent answer is observed by repetition, not proved absent.",
   "technique": "runtime monitoring: repeated evaluation in-process and across fresh processes, answer-set-size oracle",
  },
+ "C15": {
+  "text": "Step-by-step comparison of every exported PacketQueue method's return values with a flat byte-slice model: all operation sequences up to length 5 (quick) / 7 (thorough) over an 11-operation receive alphabet exhaustively, plus 20k / 2M seeded sequences in three disciplines (receive with save/restore/discard/failed reads; write with changing packet size then read back; alternating writes and reads). Held-on-observed sequences.",
+  "note": "Trusted base: the flat model in c15.go. Writing at a non-end position, reading past the written part of a partially filled written packet, and reuse of positions after a discard are not defined by a FIFO model and not generated.",
+  "technique": "runtime monitoring: executable reference model compared online, exhaustive short histories + seeded random histories",
+ },
 }
